@@ -43,7 +43,7 @@ def _case(draw, tier):
             "other_algo_is_store_algo": draw(st.booleans()),
             "prior": draw(st.sampled_from(["absent", "unref", "ref"])),
             "cks": cks, "cks_algo": draw(gen.algo_spelling()), "size": size,
-            "dsize": draw(st.sampled_from([-1, 1, 7])), "flip": draw(st.integers(0, 200)),
+            "dsize": draw(st.sampled_from([-1, 1, 7, "blk8192", "blk4096", "blk65536"])), "flip": draw(st.integers(0, 200)),
             "kind": draw(st.sampled_from(["str", "path", "file", "bytesio", "gzip", "rwfile", "relpath"])),
             # a stream handed over at a non-zero position: the WHOLE content is stored, the size to expect is the whole size
             "offset": draw(st.sampled_from([0, 0, 1, 5, 10 ** 6])),
